@@ -4,8 +4,9 @@
    Definitions only. *)
 From MP Require Import Common.Base Common.Tree Model.Heap Model.Namespace.
 
-Definition pname (i : nat) : pystr := [112%N; (48 + N.of_nat i)%N].   (* "p0", "p1", … *)
-Definition uname (i : nat) : pystr := [117%N; (48 + N.of_nat i)%N].   (* "u0", "u1", … *)
+(* index 9 stands for the empty string (a legal, falsy prefix / URI) *)
+Definition pname (i : nat) : pystr := if Nat.eqb i 9 then [] else [112%N; (48 + N.of_nat i)%N].   (* "p0", "p1", … *)
+Definition uname (i : nat) : pystr := if Nat.eqb i 9 then [] else [117%N; (48 + N.of_nat i)%N].   (* "u0", "u1", … *)
 
 Inductive cop : Type :=
 | CA (par c : nat) (i : option Z)
